@@ -17,8 +17,8 @@ import Chiritori.Lemmas.SeamExact
   * `seam_breaks`: so the hull is blanks plus exactly one line break - two when there is a blank line on both
     sides.  With b blank lines before and a after, the b + 1 + a whitespace-only lines between the two non-blank
     neighbours become a + b - [a>0 ∧ b>0]: the blank-line arithmetic of the property, at one seam.
-  Not proved yet: the lifting from one seam to a block document (that every seam of such a document is
-  block-style and that seams separated by a non-blank line do not interact).  The first line of the file is the
+  Clause (a) at document level is in Props/C13Doc.lean (`c13_lines`, `c13_lines_eq`).  Not proved yet: clause (b)
+  at document level (the count of blank lines between two surviving lines).  The first line of the file is the
   known finding D7.
 -/
 namespace Chiritori.Props.C13
